@@ -130,6 +130,8 @@ def run_case(cs):
             denied = os.path.join(root, rng.choice(dd))
             cs.count("cases_with_unlistable_folder")
     mode = "sf" if rng.random() < 0.3 and any(v is not None for v in tree.values()) else "folder"
+    if huge:
+        mode, denied = "folder", None  # the one generation of this run that holds more than 4096 records
     formats = world.gen_formats(rng, repeat=True)
     ondisk = world.read_tree(root)
     cwd = None
